@@ -225,6 +225,46 @@ def isolation_case(rp):
         w.close()
 
 
+def bulk_output_case(rp):
+    """the agent output stager on a bulk of three tasks with different directives: every
+    task gets exactly its own outputs staged, nothing of its neighbours"""
+    import radical.pilot.constants as rpc
+    from radical.pilot.agent.staging_output.default import Default as AOut
+    w = World(rp)
+    try:
+        tasks = []
+        for i, sds in enumerate(([('Copy', 'a.dat', 'pilot:///keep/a.copy')], [],
+                                 [('Link', 'c.dat', 'pilot:///keep/c.link'), ('Move', 'c2.dat', 'pilot:///keep/c2.moved')])):
+            tb = os.path.join(w.dirs['pilot'], 'task.%06d' % i)
+            os.makedirs(tb, exist_ok=True)
+            for act, src, tgt in sds:
+                open(os.path.join(tb, src), 'w').write('content of %s' % src)
+            t = w.task(output_staging=[_sd('dict', act, 'task:///' + src, tgt) for act, src, tgt in sds])
+            t['uid'] = 'task.%06d' % i
+            t['task_sandbox'] = 'file://localhost' + tb
+            t['task_sandbox_path'] = tb
+            t['target_state'] = 'DONE'
+            t['state'] = 'AGENT_STAGING_OUTPUT'
+            tasks.append(t)
+        aout = _component(AOut, rp)
+        aout._handle_task_stdio = lambda t: None
+        try:
+            aout.work(tasks)
+        except Exception as e:
+            return 'agent output staging of a bulk raised %r' % e
+        failed = [u for u, st in aout.adv if st == 'FAILED']
+        if failed:
+            return 'a bulk of three tasks with valid directives: %s failed in agent output staging (%s)' % (
+                failed, [t.get('exception') for t in tasks if t['uid'] in failed])
+        for rel, want in (('keep/a.copy', 'content of a.dat'), ('keep/c.link', 'content of c.dat'), ('keep/c2.moved', 'content of c2.dat')):
+            got = w.read('pilot', rel)
+            if got != want:
+                return 'after agent output staging of a bulk pilot:///%s %s' % (rel, 'does not exist' if got is None else 'has other content: %r' % got)
+        return None
+    finally:
+        w.close()
+
+
 def url_context_case(rp):
     """pilot-level staging hands complete_url a context whose entries are Url objects
     (Session._get_*_sandbox): resolving one directive must not influence the next"""
@@ -253,6 +293,9 @@ def run_all(rp, tier='quick'):
     n += 1
     p = url_context_case(rp)
     if p: viol.append(dict(id='url-context', detail=p, input={}))
+    n += 1
+    p = bulk_output_case(rp)
+    if p: viol.append(dict(id='bulk-output', detail=p, input={}))
     for case in input_cases():
         n += 1
         p = run_input_case(rp, case)
@@ -273,7 +316,7 @@ def run_all(rp, tier='quick'):
 KEYS = ['staging_directives.py:expand_staging_directives', 'staging_directives.py:complete_url',
         'agent/staging_input/default.py:Default._handle_task_staging#dispatch', 'tmgr/staging_output/default.py:Default.work#triage',
         'tmgr/staging_output/default.py:Default._handle_task#final', 'tmgr/staging_output/default.py:Default.work#pass-on',
-        'tmgr/staging_output/default.py:Default.work#staged']
+        'tmgr/staging_output/default.py:Default.work#staged', 'agent/staging_output/default.py:Default.work#triage']
 
 
 @builder(*KEYS)
